@@ -269,8 +269,14 @@ class Sym:
                 return mk_and(("cmp", lo, recv_s, args[0]), ("cmp", hi, recv_s, args[1]))
             if m == "unique" and not args:
                 return ("unique", recv_s)
-            if m == "between" and len(args) >= 2:  # pyspark Column.between is inclusive
-                return mk_and(("cmp", ">=", recv_s, args[0]), ("cmp", "<=", recv_s, args[1]))
+            if m == "between" and len(args) >= 2:  # pyspark Column.between is inclusive; pandas takes inclusive=
+                incl = kwargs.get("inclusive", args[2] if len(args) > 2 else ("const", "both"))
+                if incl[0] != "const" or incl[1] not in ("both", "neither", "left", "right", True, False):
+                    raise PredError("between with non-literal `inclusive`")
+                iv = {True: "both", False: "neither"}.get(incl[1], incl[1])
+                lo = ">=" if iv in ("both", "left") else ">"
+                hi = "<=" if iv in ("both", "right") else "<"
+                return mk_and(("cmp", lo, recv_s, args[0]), ("cmp", hi, recv_s, args[1]))
         if isinstance(recv, tuple) and recv and recv[0] in ("cmp", "and", "not", "isin", "str"):
             if m == "not_" and not args:
                 return ("not", recv)
